@@ -79,7 +79,11 @@ func lruRunCase(ctx *Ctx, capacity, mod int, fails []int, ttl int, ops []string)
 		ec, err := lru.NewExpirableCache[int, lru.ExpirableItem[int]](capacity,
 			func(pk int) (lru.ExpirableItem[int], error) {
 				v, err := create(pk)
-				return lru.NewCacheItem(v, lruBase.Add(time.Duration(now+ttl)*time.Millisecond)), err
+				item := lru.NewCacheItem(v, lruBase.Add(time.Duration(now+ttl)*time.Millisecond))
+				// creation takes time: the clock moves while the create function runs (the deadline was fixed
+				// at its start); the latency is a function of the case header so that replays reproduce it
+				now += []int{0, 0, ttl + 2, 1}[(capacity+ttl+len(fails))%4]
+				return item, err
 			},
 			func(pk int, v lru.ExpirableItem[int]) { onDelete(pk, v.Value) })
 		if err != nil {
